@@ -40,6 +40,12 @@ CHECKS = {
    note="`use` provenance accepts the syntactic source or any interface up the chain to the defining one (wac records the owner). Types the reference toolchain elides from a component are not expected. Shaped components that wac rejects with an error (unsupported features) are counted, not failed.",
    technique="property-based testing: differential against the reference validator's typed view and subtype relation; generator-known provenance (proptest)",
    design="C08"),
+ "C09": dict(
+   category="exploration",
+   text="The components of a generated library are decoded into separate type collections and contribute all their imports; every permutation (up to 120) of 2-5 contributors is aggregated. Success must equal the model's prediction (conflict exactly when one bare function name is required with two signatures) and be identical under every order; import names and a structural description of every merged type must be identical under every order; one import per reference semver track named for the highest version with canonical_import_name redirecting every lower name; every contributor's requirement is covered export by export with a structurally equal item (independent walk; wac's checker as secondary witness); aggregating everything twice changes nothing.",
+   note="Contributors are real components, so a used interface is always also a direct requirement of its contributor; requirements reached only through `use` (possible at the API level when the direct argument is satisfied elsewhere) are not generated. Versions of the API package differ by added functions only (compatible by construction).",
+   technique="property-based testing: algebraic laws (commutativity over all permutations, idempotence, upper bound) + model-predicted conflicts (proptest)",
+   design="C09"),
  "C12": dict(
    category="exploration",
    text="Grammar-derived documents (own AST model, random layout) must parse to the derivation's tree; all single-token deletions/duplications/swaps and a fixed third of an 18-token substitution pool per position, raw insertions (forbidden code points, quotes, comment openers, separators, malformed versions) and ~140 hand-written near-miss forms are decided by a reference tokenizer+recogniser written from LANGUAGE.md; wac must agree on membership, on the tree when both accept, and locate its error inside the source when both reject.",
